@@ -74,6 +74,40 @@ func construct(t *rapid.T, friendly bool) sigCase {
 			}
 		}
 		r := ref.Mod(R.X, ref.N)
+		// near-miss aliases of x(R): the whole equation is then built around r' (so the verifier's
+		// internal R is exactly this R) and only the final "x(R) mod n == r" comparison decides.
+		// They are the hostile inputs for comparisons that wrap mod p or mod 2^256, look at the wrong
+		// coordinate, or skip the reduction.  The reference decides the verdict.
+		ralias := rapid.SampledFrom([]string{"exact", "exact", "exact", "exact", "x+(p-n)", "x+(2^256-n)", "x+(2^256-p)", "y(R)", "-x", "x+1", "x(2R)", "x-(p-n)"}).Draw(t, "r-alias")
+		if friendly {
+			ralias = "exact"
+		}
+		two256 := new(big.Int).Lsh(big.NewInt(1), 256)
+		switch ralias {
+		case "x+(p-n)":
+			r = new(big.Int).Add(R.X, new(big.Int).Sub(ref.P, ref.N))
+		case "x-(p-n)":
+			r = new(big.Int).Sub(R.X, new(big.Int).Sub(ref.P, ref.N))
+		case "x+(2^256-n)":
+			r = new(big.Int).Add(R.X, new(big.Int).Sub(two256, ref.N))
+		case "x+(2^256-p)":
+			r = new(big.Int).Add(R.X, new(big.Int).Sub(two256, ref.P))
+		case "y(R)":
+			r = new(big.Int).Set(R.Y)
+		case "-x":
+			r = new(big.Int).Neg(R.X)
+		case "x+1":
+			r = new(big.Int).Add(R.X, big.NewInt(1))
+		case "x(2R)":
+			r = new(big.Int).Set(R.Double().X)
+		}
+		if ralias != "exact" {
+			// only keep aliases that are canonical scalars as integers (a verifier never sees anything else)
+			if r.Sign() <= 0 || r.Cmp(ref.N) >= 0 {
+				r = ref.Mod(r, ref.N)
+			}
+			c.cls = append(c.cls, "r-alias:"+ralias)
+		}
 		if r.Sign() == 0 {
 			t.Skip("r = 0")
 		}
